@@ -331,11 +331,14 @@ tp_task_start_ex(int shedule_first_io, tp_task_p tptask, uint16_t event,
 		return (EINVAL);
 	/* Transfer handlers: buf is io_buf_p, validate window on any start
 	 * path and before task is changed (no wrap: offset + transfer_size). */
-	if ((tp_task_sr_handler == tptask->tp_data.cb_func ||
+	if (tp_task_pkt_rcvr_handler == tptask->tp_data.cb_func &&
+	    NULL == buf)
+		return (EINVAL); /* Only stream handlers have the "no buf: notify only" mode. */
+	if (NULL != buf &&
+	    (tp_task_sr_handler == tptask->tp_data.cb_func ||
 	     tp_task_rw_handler == tptask->tp_data.cb_func ||
 	     tp_task_pkt_rcvr_handler == tptask->tp_data.cb_func) &&
-	    (NULL == buf ||
-	     buf->offset > buf->size ||
+	    (buf->offset > buf->size ||
 	     IO_BUF_TR_SIZE_GET(buf) > (buf->size - buf->offset)))
 		return (EINVAL);
 	//tptask->tp_data.cb_func = tp_task_handler;
